@@ -28,7 +28,7 @@ ASSUMPTIONS = [
 ENZ = "BsaI"
 
 
-VARIANTS = ["cited", "plain", "cited-rotated", "plain-rotated", "cited-aligned", "plain-aligned"]
+VARIANTS = ["cited", "plain", "cited-rotated", "plain-rotated", "cited-aligned", "plain-aligned", "cited-odd", "plain-odd"]
 
 
 def bounds(tier):
@@ -38,7 +38,7 @@ def bounds(tier):
 
 def goals(tier):
     return ["op-product", "op-warning", "op-InvalidSequence", "op-DuplicateModules", "op-MissingModule", "op-injected-exception",
-            "cited-world", "rotated-world", "retry-after-failure", "origin-on-first-base-of-fragment", "op-UnusedModules"]
+            "cited-world", "rotated-world", "odd-world", "retry-after-failure", "origin-on-first-base-of-fragment", "op-UnusedModules"]
 
 
 # ---------------------------------------------------------------------------------------------
@@ -64,7 +64,8 @@ def build_world(variant):
     g = gen.geometry_of(gen.enzyme(ENZ))
     M, V = gen.generic_classes(ENZ)
     cited = variant.startswith("cited")
-    rotated = variant.endswith("rotated")
+    odd = variant.endswith("odd")              # rotated, plus unusual but legal record contents set after construction
+    rotated = variant.endswith("rotated") or odd
     aligned = variant.endswith("aligned")      # origin exactly on the first base of the fragment the library cuts out
     base = asm.base_scenario(ENZ, 3)
     vec, mods = asm.pieces_to_plasmids(base)
@@ -80,6 +81,16 @@ def build_world(variant):
         r = CircularRecord(Seq(s), id=name, name=name, description="desc " + name, features=feats, annotations=ann)
         if rotated:
             r = r >> (len(s) - t0 - 2 if name != "v" else 2)      # origin inside the target / inside the backbone
+        if odd:
+            # what a user may legitimately do to a record before handing it over: an unusual spelling of the topology,
+            # nested annotation values, per-letter annotations, cross references, string-valued qualifiers
+            r.annotations["topology"] = "Circular" if len(recs) % 2 == 0 else "CIRCULAR"
+            r.annotations["structured_comment"] = {"Assembly-Data": {"Method": ["a", "b"]}}
+            r.annotations["keywords"] = ["k1", "k2"]
+            r.letter_annotations["idx"] = list(range(len(r.seq)))
+            r.dbxrefs.append("db:" + name)
+            for f in r.features[:1]:
+                f.qualifiers["note"] = "plain string " + name
         if aligned:
             # modules: origin on the first base of the upstream overhang; vectors: on the first base of the downstream overhang
             r = r >> ((len(s) - t0) if not name.startswith("v") else (len(s) - (g.ov + len(base["vbb"]))))
@@ -271,6 +282,8 @@ def run_unit(unit, st, tier):
         st.goal("cited-world")
     if variant.endswith("rotated"):
         st.goal("rotated-world")
+    if variant.endswith("odd"):
+        st.goal("odd-world")
     if variant.endswith("aligned"):
         st.goal("origin-on-first-base-of-fragment")
     st.extra["distinct_input_snapshots_max"] = max(st.extra["distinct_input_snapshots_max"], len(allsnaps))
